@@ -38,6 +38,9 @@ type loopDesc struct {
 	in         map[*ssa.BasicBlock]bool
 	innerBlock map[*ssa.BasicBlock]bool // blocks of nested loops other than their headers
 	simple     bool
+	// breaks: like simple, except that body blocks may also leave the loop (`for a && b`,
+	// `break`): still executable iteration by iteration as long as every such test folds
+	sideExits bool
 }
 
 func loopDescs(fn *ssa.Function, order []*ssa.BasicBlock) map[*ssa.BasicBlock]*loopDesc {
@@ -77,11 +80,13 @@ func loopDescs(fn *ssa.Function, order []*ssa.BasicBlock) map[*ssa.BasicBlock]*l
 		} else {
 			ld.body = h.Succs[1]
 		}
+		shape := ld.simple
 		for _, b := range ld.order {
 			if b != h {
 				for _, su := range b.Succs {
 					if !ld.in[su] {
 						ld.simple = false
+						ld.sideExits = true
 					}
 				}
 			}
@@ -89,9 +94,11 @@ func loopDescs(fn *ssa.Function, order []*ssa.BasicBlock) map[*ssa.BasicBlock]*l
 				switch ins.(type) {
 				case *ssa.Return, *ssa.Panic:
 					ld.simple = false
+					shape = false
 				}
 			}
 		}
+		ld.sideExits = ld.sideExits && shape
 		out[h] = ld
 	}
 	// nested loops
@@ -194,6 +201,7 @@ func (ev *Evaluator) Call(fn *ssa.Function, args []Val, free []Val, st *State) V
 	}
 	type edge struct{ from, to *ssa.BasicBlock }
 	dirty := map[*ssa.BasicBlock]map[*Obj]bool{}
+	dirtyVals := map[*ssa.BasicBlock]map[*Obj][2]Val{} // value before / after one iteration (discovery sweep)
 	muName := map[ssa.Value]string{}
 	muObj := map[*ssa.BasicBlock]map[*Obj]string{}
 	var rets []RetAlt
@@ -298,7 +306,11 @@ func (ev *Evaluator) Call(fn *ssa.Function, args []Val, free []Val, st *State) V
 					nmuGlobal++
 					name := fmt.Sprintf("μm%d", nmuGlobal)
 					muObj[b][o] = name
-					cur.mem[o] = symLike(name, cur.mem[o])
+					if d, ok := dirtyVals[b][o]; ok {
+						cur.mem[o] = symLikeDiff(name, cur.mem[o], d[0], d[1])
+					} else {
+						cur.mem[o] = symLike(name, cur.mem[o])
+					}
 				}
 			}
 			ev.curCond = cAnd(outerCond, cond[b])
@@ -464,7 +476,7 @@ func (ev *Evaluator) Call(fn *ssa.Function, args []Val, free []Val, st *State) V
 						continue // evaluated by its own (inner) loop
 					}
 					if inner := loops[b]; inner != nil {
-						if !inner.simple || !tryUnroll(inner, depth+1) {
+						if !(inner.simple || inner.sideExits) || !tryUnroll(inner, depth+1) {
 							return rollback()
 						}
 						continue
@@ -485,6 +497,24 @@ func (ev *Evaluator) Call(fn *ssa.Function, args []Val, free []Val, st *State) V
 							ui.states = append(ui.states, outSt[p])
 						}
 					}
+				}
+				// side exits (break, the second operand of a && in the loop test)
+				exitTaken := false
+				for _, b := range ld.order[1:] {
+					for _, su := range b.Succs {
+						if ld.in[su] {
+							continue
+						}
+						if ec, ok := econd[edge{b, su}]; ok && !ec.IsZero() {
+							exitTaken = true
+						}
+					}
+				}
+				if exitTaken {
+					if len(backIdx) != 0 {
+						return rollback() // leaves and continues: the test did not fold
+					}
+					break // left through a side exit; its edge conditions and states stay for the successors
 				}
 				if len(backIdx) == 0 {
 					return rollback() // the body never comes back: not a counted loop
@@ -520,7 +550,7 @@ func (ev *Evaluator) Call(fn *ssa.Function, args []Val, free []Val, st *State) V
 			if skip[b] {
 				continue
 			}
-			if ld := loops[b]; ld != nil && ld.simple && ev.unroll {
+			if ld := loops[b]; ld != nil && (ld.simple || ld.sideExits) && ev.unroll {
 				if tryUnroll(ld, 0) {
 					for _, x := range ld.order {
 						skip[x] = true
@@ -577,6 +607,10 @@ func (ev *Evaluator) Call(fn *ssa.Function, args []Val, free []Val, st *State) V
 						recordRec(name, pv, v)
 					} else if valKey(pv) != valKey(v) {
 						dirty[b][o] = true
+						if dirtyVals[b] == nil {
+							dirtyVals[b] = map[*Obj][2]Val{}
+						}
+						dirtyVals[b][o] = [2]Val{pv, v}
 					}
 				}
 				if last {
@@ -606,6 +640,7 @@ func (ev *Evaluator) Call(fn *ssa.Function, args []Val, free []Val, st *State) V
 						}
 						if len(ini) > 0 && len(stp) > 0 {
 							recordRec(muName[x], mergeVals(ini, inic), mergeVals(stp, stpc))
+							recLoop[muName[x]] = fmt.Sprintf("%s#%d", fn.String(), b.Index)
 						}
 					}
 				}
